@@ -37,6 +37,9 @@ def _cvc5(smt2, timeout_s):
         os.unlink(path)
 
 
+_PRISTINE = None
+
+
 def _small_prefs(syms):
     """soft preferences for counter-models and witnesses: small values for every declared integer input, so that
     native replays do not allocate gigabyte buffers for an allocation length of 2**32-1"""
@@ -46,6 +49,11 @@ def _small_prefs(syms):
             prefs.append(z3.And(v.e <= V.bvconst(1 << 12), v.e >= V.bvconst(-(1 << 12))))
         elif isinstance(v, (V.SBuf, V.SMBuf)) and isinstance(v.n, SInt):
             prefs.append(v.n.e <= 256)
+        elif isinstance(v, V.SBytes):
+            # leading bytes of a buffer are often length fields of a response: prefer zero, byte by byte
+            for c in list(getattr(v, "_initial_cells", v.cells))[:12]:
+                if isinstance(c, SInt):
+                    prefs.append(c.e == V.bvconst(0))
     return prefs
 
 
@@ -56,9 +64,26 @@ def _nice_model(s, prefs):
         return m
     s.push()
     try:
+        s.push()
         s.add(*prefs)
-        if s.check() == z3.sat:
+        ok = s.check() == z3.sat
+        if ok:
             m = s.model()
+        s.pop()
+        if not ok:
+            # not all at once: keep the preferences that can be added one after the other (bounded effort)
+            s.set("timeout", 2000)
+            kept = 0
+            for p in prefs[:40]:
+                s.push()
+                s.add(p)
+                if s.check() == z3.sat:
+                    m = s.model()
+                    kept += 1
+                else:
+                    s.pop()
+            for _ in range(kept):
+                s.pop()
     finally:
         s.pop()
     return m
@@ -127,6 +152,17 @@ def verify_case(unit_name, case, prop=None, tier="quick", opts=None):
     except Exception as ex:
         res["notes"].append("functions(): %r" % (ex,))
     decls = unit.inputs(case)
+    # every case starts from the library state as it was when this worker first looked at it (state that an earlier
+    # case left behind -- possible only if the code under test keeps state between calls -- must not leak into this one)
+    global _PRISTINE
+    if _PRISTINE is None:
+        _PRISTINE = StateGuard()
+        _PRISTINE.snapshot()
+    else:
+        try:
+            _PRISTINE.restore(_PRISTINE.diff())
+        except Exception as ex:
+            res["notes"].append("pristine state could not be restored: %r" % (ex,))
     guard = StateGuard()
     guard.snapshot()
     records = []
@@ -214,6 +250,7 @@ def verify_case(unit_name, case, prop=None, tier="quick", opts=None):
         res["frame_diffs"].append(dict(path=-1, owner=d[0], attr=d[1], kind=d[2]))
     guard.restore(final)
     canary_passed = []
+    vacuous_paths = []
     rng = random.Random(opts.get("seed", 0))
     n_wit = opts.get("witnesses", 4 if tier == "quick" else 32)
     for pi, (ctx, kind, val) in enumerate(paths):
@@ -262,7 +299,13 @@ def verify_case(unit_name, case, prop=None, tier="quick", opts=None):
             if d["verdict"] == "failed":
                 res["canaries_refuted"] += 1
             elif d["verdict"] == "proved":
-                canary_passed.append("CANARY PASSED: %s/%s on path %d" % (unit_name, n, pi))
+                if n.startswith("canary:false-under-the-path-condition"):
+                    # this path's condition is unsatisfiable (an infeasible branch that the feasibility check let
+                    # through, e.g. on a solver time-out): whatever was proved on it is vacuous but harmless; it is
+                    # an error only if EVERY path of the case is like that (contradictory preconditions)
+                    vacuous_paths.append(pi)
+                else:
+                    canary_passed.append("CANARY PASSED: %s/%s on path %d" % (unit_name, n, pi))
         # witness: a concrete input of this path, run natively; outcome and clauses must agree
         if all_proved and (pi < n_wit or rng.random() < 0.05) and not opts.get("no_witness") and getattr(unit, "witness", True):
             m = _any_model(ctx.pc, timeout_ms, _small_prefs(rec["syms"]))
@@ -293,6 +336,11 @@ def verify_case(unit_name, case, prop=None, tier="quick", opts=None):
                         res["status"] = "error"
                         res["notes"].append("CROSS-CHECK: interpreter says %s, CPython says %s for %s inputs=%s" % (
                             out.describe(), nout.describe(), unit_name, json.dumps(inp)[:400]))
+    if vacuous_paths:
+        res["notes"].append("%d of %d paths have an unsatisfiable path condition (vacuous)" % (len(vacuous_paths), len(paths)))
+        if len(vacuous_paths) == len(paths):
+            res["status"] = "error"
+            res["notes"].append("CANARY PASSED: every path of %s[%s] is vacuous (contradictory preconditions?)" % (unit_name, res["case_id"]))
     if canary_passed:
         # a unit-specific canary is a clause that is false *if the contract holds*; when the same case reports
         # violations the premise is gone and the passing canary is only noted, otherwise the run is not trusted
